@@ -241,6 +241,24 @@ def check(P, R):
                 okl = isinstance(a0, ast.Call) and dotted(a0.func) == 'touni' and len(a0.args) == 2 and is_const(a0.args[1], 'latin1')
                 R.ob('C18.d', cf, c, okl, text='forms text = touni(body, latin1)', detail='' if okl else 'the urlencoded body is not decoded as latin1 before scanning')
 
+    # a field is skipped only when its name is empty: the test in front of the `continue` that bypasses add() is a plain emptiness test of the raw name
+    add_nodes = [g.node_of_stmt(c)[0] for c in walk_shallow(loop) if isinstance(c, ast.Call) and isinstance(c.func, ast.Name) and c.func.id == 'add']
+    for cont in [n for n in g.nodes if n.kind == 'stmt' and isinstance(n.ast, ast.Continue) and T._inside(n.ast, loop.body) and T.loops_of(n.ast) and T.loops_of(n.ast)[0] is loop]:
+        if not any(g.can_reach(head, a_) for a_ in add_nodes):
+            continue
+        guards = [(t, lab) for t in g.nodes if t.kind == 'test' and t.ast is not None for lab in ('true', 'false') if g.edge_dominates(t, lab, cont) and T._inside(t.ast, loop.body)]
+        for (t, lab) in guards:
+            te, neg = strip_not(t.ast)
+            plain = isinstance(te, ast.Name) or (isinstance(te, ast.Call) and dotted(te.func) == 'len' and te.args and isinstance(te.args[0], ast.Name)) or \
+                (compare_parts(te) and isinstance(compare_parts(te)[0], ast.Name) and isinstance(compare_parts(te)[2], ast.Constant) and compare_parts(te)[2].value in ('', 0))
+            R.ob('C18.c', f, t.ast, bool(plain), text=f'`{short(t.ast)}` skips a field only for an empty name', detail='' if plain else
+                 f'the field is skipped on `{short(t.ast)}`, which is more than "the name is empty": a pair whose key is made of spaces only (sent as `+=v`) is dropped '
+                 f'and its value is then read as a bare name',
+                 why='every pair with a non-empty key is parsed back', key_extra='skip-only-empty')
+    check_query_memo(P, R)
+    from . import c13 as _c13b
+    from ..report import Sub as _Sub18
+    _c13b.check_get_body_string(P, _Sub18(R, why='an urlencoded body up to the in-memory threshold is parsed (one byte more is read only to tell it is too long)'), 'C18.d')
     check_add(P, R, f)
     check_decode_order(P, R, f, unq)
     check_callers(P, R)
@@ -534,3 +552,36 @@ def check_decode_order(P, R, f, unq):
                 probs += decode_shape(P, f, e, d.node if d is not None else cn)
             R.ob('C18.d', f, c, not probs, text=f'{role} of add(): "+" -> space, then percent-decoding', detail='; '.join(sorted(set(probs))),
                  why="'+' and percent-escapes decode to what was sent", key_extra=role)
+
+
+def check_query_memo(P, R):
+    """request.query is memoised in the environ under the key the change listener drops when QUERY_STRING is written through the request
+    (writer and invalidator agree on the memo key; nothing else stores the parsed query under a second key that is read back)"""
+    q = P.func('ombott.request_pkg.body_mixin:BodyMixin.query')
+    keys = []
+    for d in q.node.decorator_list:
+        if isinstance(d, ast.Call) and (dotted(d.func) or '').split('.')[-1] == 'cache_in' and d.args and isinstance(d.args[0], ast.Constant):
+            m = d.args[0].value.replace(' ', '')
+            if m.startswith('environ[') and m.endswith(']'):
+                keys.append(m[len('environ['):-1])
+    oc = P.func('ombott.request_pkg.request:BaseRequest._on_env_changed')
+    dropped = set()
+    for t in [n for n in oc.cfg.nodes if n.kind == 'test' and n.ast is not None]:
+        cp = compare_parts(t.ast)
+        if cp and cp[1] is ast.Eq and is_const(cp[2], 'QUERY_STRING'):
+            for m_ in T.succ_by_label(t, 'true'):
+                if m_.kind == 'stmt' and m_.ast is not None:
+                    dropped |= {x.value for x in ast.walk(m_.ast) if isinstance(x, ast.Constant) and isinstance(x.value, str)}
+    prefix = ''
+    for x in ast.walk(oc.node):
+        if isinstance(x, ast.BinOp) and isinstance(x.op, ast.Add) and isinstance(x.left, ast.Constant) and isinstance(x.left.value, str):
+            prefix = x.left.value
+    if not keys:
+        R.ob('C18.d', q, q.node, True, text='request.query is not memoised', nontrivial=False)
+        return
+    for k in keys:
+        ok = any(prefix + d_ == k for d_ in dropped)
+        R.ob('C18.d', q, q.node, ok, text=f'memo key `{k}` of request.query is dropped when QUERY_STRING changes', detail='' if ok else
+             f'request.query is memoised under `{k}`, but the change listener drops {sorted(prefix + d_ for d_ in dropped)} for QUERY_STRING: after '
+             f'`request["QUERY_STRING"] = ...` (also on a copy of the request) the pairs of the first query keep being returned',
+             why='parsing the query string of the request yields its pairs', key_extra='query-memo-key')
